@@ -113,11 +113,90 @@ def stress(ctx):
                              {'parser': which, 'document': d, 'stress': True})
 
 
+FRESH_SCRIPT = r"""
+import json, sys
+sys.path.insert(0, sys.argv[1])
+from prometheus_client import parser as tp
+from prometheus_client.openmetrics import parser as op
+docs = json.load(sys.stdin)
+out = []
+for which, text in docs:
+    f = tp.text_string_to_metric_families if which == 'text' else op.text_string_to_metric_families
+    try:
+        fams = list(f(text))
+        out.append('ok:%d:%s' % (len(fams), ','.join('%s/%s/%d' % (m.name, m.type, len(m.samples)) for m in fams)[:300]))
+    except ValueError:
+        out.append('ValueError')
+    except BaseException as e:
+        out.append(type(e).__name__)
+json.dump(out, sys.stdout)
+"""
+
+
+def outcome_here(which, text):
+    from prometheus_client import parser as tp
+    from prometheus_client.openmetrics import parser as op
+    f = tp.text_string_to_metric_families if which == 'text' else op.text_string_to_metric_families
+    try:
+        fams = list(f(text))
+        return 'ok:%d:%s' % (len(fams), ','.join('%s/%s/%d' % (m.name, m.type, len(m.samples)) for m in fams)[:300])
+    except ValueError:
+        return 'ValueError'
+    except BaseException as e:  # noqa
+        return type(e).__name__
+
+
+def history_independence(ctx):
+    """'the outcome is the same on every run': the outcome of parsing a document in THIS process — after tens of thousands of
+    other documents went through the same module state — must equal its outcome in a fresh interpreter (documents sent in
+    another order).  Catches state that leaks from one parse into the next (caches, tables mutated in place)."""
+    import json
+    import subprocess
+    import sys
+    import omgen
+    rng = ctx.rng
+    docs = []
+    n = 60 if ctx.tier == 'quick' else 600
+    for _ in range(n):
+        text, _d = omgen.gen_document(rng)
+        lines = text.split('\n')
+        docs.append(('om', text))
+        # variants that are usually REJECTED only because of per-family bookkeeping: a bare-name sample under a typed family,
+        # a sample with a suffix of another type, a metadata line dropped
+        i = rng.randrange(len(lines))
+        docs.append(('om', '\n'.join(lines[:i] + lines[i + 1:])))
+        for l in lines:
+            if l.startswith('# TYPE '):
+                nm = l.split(' ')[2]
+                docs.append(('om', text.replace('# EOF', nm.strip('"') + ' 1\n# EOF') if '"' not in nm else text))
+                docs.append(('om', '%s\n%s 1\n# EOF\n' % (l, nm.strip('"'))))
+                break
+        docs.append(('text', text.replace('# EOF\n', '')))
+    here = [outcome_here(w, t) for w, t in docs]
+    # shortest documents first in the fresh interpreter: the probes run before any complete family could leave state behind
+    order = sorted(range(len(docs)), key=lambda i: len(docs[i][1]))
+    try:
+        p = subprocess.run([sys.executable, '-c', FRESH_SCRIPT, lib.REPO], input=json.dumps([docs[i] for i in order]).encode(),
+                           stdout=subprocess.PIPE, stderr=subprocess.PIPE, timeout=300)
+        fresh = json.loads(p.stdout.decode())
+    except Exception as e:
+        raise lib.Infra('fresh-interpreter run failed: %s' % e)
+    for pos, i in enumerate(order):
+        ctx.case(nontrivial_key=('fresh', i))
+        ctx.count('history-independence')
+        if fresh[pos] != here[i]:
+            ctx.fail('C14:%s:outcome-depends-on-history' % docs[i][0],
+                     '%s parser: outcome %r in this process (after many other documents) but %r in a fresh interpreter on %r'
+                     % (docs[i][0], here[i][:80], fresh[pos][:80], docs[i][1][:120]),
+                     {'parser': docs[i][0], 'document': docs[i][1], 'history': True})
+
+
 def run(ctx):
     corecheck.run(ctx)
     c14text.run_text(ctx)
     c14om.run_om(ctx)
     stress(ctx)
+    history_independence(ctx)
     if not ctx.rule:
         ctx.rule = 'see c14text.py / c14om.py'
     ctx.rule += ('; stress stream: special number tokens substituted at every value position of generated documents, runs of 1100/3000 '
@@ -126,6 +205,9 @@ def run(ctx):
 
 def replay(ctx, case):
     c = case.get('case', {})
+    if c.get('history'):
+        print('REPLAY outcome in this (fresh) process:', outcome_here(c['parser'], c['document'])[:200], '- history dependence needs the full run')
+        return 0
     if c.get('stress'):
         r = probe(c['parser'], c['document'])
         print('REPLAY', c['parser'], 'parser ->', r or 'families or ValueError')
